@@ -510,6 +510,7 @@ class Shelxfile():
                 self.latt = self._assign_card(LATT(self, spline), line_num)
                 if lastcard != 'ZERR' and (self.verbose or self.debug):
                     print('*** ZERR instruction is missing! ***')
+                self.symmcards.set_latt_ops(self.latt.latt_ops)
                 if self.latt.centric:
                     self.symmcards.set_centric(True)
             elif word == "SYMM":
